@@ -49,7 +49,7 @@ func drawFlags(r *rng, rules []string, lr bool) []string {
 	var f []string
 	for _, b := range boolFlags {
 		p := 4
-		if b == "-optimize-grammar" || b == "-support-left-recursion" {
+		if b == "-optimize-grammar" || b == "-support-left-recursion" || b == "-optimize-basic-latin" {
 			p = 2
 		}
 		if r.intn(p) == 0 {
@@ -62,7 +62,7 @@ func drawFlags(r *rng, rules []string, lr bool) []string {
 	if r.chance(1, 8) {
 		f = append(f, "-receiver-name", r.pick([]string{"p", "cur", "self"}))
 	}
-	if r.chance(1, 25) {
+	if r.chance(1, 10) {
 		f = append(f, "-x")
 	}
 	if r.chance(1, 40) {
@@ -263,6 +263,18 @@ func describeCase(c tooldriver.Case) string {
 // often in leading position: left-recursive SCCs of arbitrary shape, several
 // cycles, nullable prefixes, rule names differing only by case.
 func genFreeRefGrammar(r *rng) toolInput {
+	if r.chance(1, 2) {
+		g := gen.GenerateNullCycle(r2{r}, r.chance(1, 4))
+		po := gen.PrintOptions{JoinLines: r.chance(1, 3), Semi: r.chance(1, 6)}
+		if r.chance(1, 3) {
+			po.Header = "{\npackage gen\n}"
+		}
+		var names []string
+		for _, rl := range g.Rules {
+			names = append(names, rl.Name)
+		}
+		return toolInput{Name: "gennull", Grammar: []byte(g.Print(po)), Class: "gennull", Rules: names}
+	}
 	cfg := gen.Config{
 		MaxRules: 2 + r.intn(5), MaxDepth: 1 + r.intn(2),
 		Actions: r.chance(1, 3), Preds: r.chance(1, 4), States: r.chance(1, 5), Lookahead: r.chance(1, 3),
